@@ -3,8 +3,8 @@
 verus! {
 //@ include prelude/base.rs
 //@ include prelude/std_assumed.rs
-//@ shims config features::hyperlinks
-//@ broadcast vax::vax_group axiom_cow_ref_str
+//@ shims config features::hyperlinks hyperlinks
+//@ broadcast vax::vax_group axiom_cow_ref_str axiom_cow_to_string
 /// --file-transformation (utils/regex_replacement.rs, crate regex): what the displayed name becomes; uninterpreted
 #[verifier::external_body]
 pub struct RegexReplacement { _p: u8 }
@@ -148,6 +148,41 @@ pub open spec fn format_file_spec(file: Seq<char>, config: &Config) -> Seq<char>
 //@from <<<let formatted_file = if let Some(regex_replacement)>>>
 //@to <<<_ => formatted_file, }>>>
 //@| ensures cow_view(&r) == format_file_spec(file@, config),  // @C19:file.header.link.wraps.the.shown.name.and.targets.the.named.file
+
+// ---------------------------------------------------------------- features/line_numbers.rs format_line_number
+//@ type src/format.rs Align derives=Clone,Copy,PartialEq,Eq,Structural
+/// format::pad (width / alignment / precision formatting of a number); uninterpreted
+pub uninterp spec fn pad_spec(n: usize, width: usize, alignment: Align, precision: Option<usize>) -> Seq<char>;
+pub mod format {
+    use vstd::prelude::*;
+    use crate::*;
+    #[verifier::external_body]
+    pub fn pad(n: usize, width: usize, alignment: Align, precision: Option<usize>) -> (r: String)
+        ensures r@ == pad_spec(n, width, alignment, precision) { unimplemented!() }
+}
+/// `Cow<str>::to_string()`: the text
+pub broadcast axiom fn axiom_cow_to_string(c: &Cow<'_, str>, r: String)
+    ensures #[trigger] vstd::string::to_string_from_display_ensures::<Cow<'_, str>>(c, r) <==> r@ == cow_view(c);
+/// C19/C05: the field shows the padded number; with hyperlinks on and a resolvable path the SAME text is wrapped in a
+/// link that carries exactly this number; an absent number is `width` spaces
+pub open spec fn line_number_field_spec(line_number: Option<usize>, alignment: Align, width: usize, precision: Option<usize>, plus_file: Option<&str>, config: &Config) -> Seq<char> {
+    match line_number {
+        None => spaces(width as nat),
+        Some(n) => {
+            let shown = pad_spec(n, width, alignment, precision);
+            match plus_file {
+                Some(file) => if config.hyperlinks && abs_path_text(file@, config) is Some {
+                        osc8_spec(file_url_spec(config, abs_path_text(file@, config)->0, Some(n)), shown)
+                    } else { shown },
+                None => shown,
+            }
+        }
+    }
+}
+//@ fn src/features/line_numbers.rs format_line_number
+//@| ensures r@ == line_number_field_spec(line_number, alignment, width, precision, plus_file, config),  // @C19,C05,C09:the.line.number.field.is.the.padded.number.or.that.number.wrapped.in.one.whole.link.carrying.it
+//@rewrite <<<let pad = |n| format::pad(n, width, alignment, precision);>>> => <<<let pad = |n: usize| -> (p: String) ensures p@ == pad_spec(n, width, alignment, precision) { format::pad(n, width, alignment, precision) };>>>
+//@rewrite <<<" ".repeat(width)>>> => <<<verif_spaces(width)>>>
 
 } // verus!
 fn main() {}
